@@ -2,10 +2,13 @@
 
 prove      coq/props/Properties_C12.v: refinement of the Clipper64 state machine (sort cache, CleanUp) to "paths since
            the last Clear + options" for every history; incremental stable sort; RectClip64 per-path loop; and
-           C12_fields_covered over the member table regenerated from the current source (cpp2v/tables.py).
+           C12_fields_covered over the member table regenerated from the current source (cpp2v/tables.py); order
+           independence of the ClipperOffset plan (which routine / delta / end type / arc steps a path gets), the
+           fill rule being order independent only for consistently oriented groups (refuted otherwise: known finding).
 correspond the extracted state machine vs the real object's private state after every operation (HM+X), and --
            the validation proper -- every Execute of exhaustively enumerated and random histories against a fresh
-           object given the abstract state, bit for bit; offset groups/paths far apart vs each alone; RectClip reuse.
+           object given the abstract state, bit for bit; offset groups/paths far apart vs each alone; RectClip reuse;
+           the OffsetPlan model vs the member values the library uses for every path (observer, offset_common.plan_tie).
 """
 import itertools, json, os, re, sys, time
 import concurrent.futures as cf
@@ -13,17 +16,19 @@ import concurrent.futures as cf
 sys.path.insert(0, os.path.join(os.path.dirname(os.path.abspath(__file__)), '..', 'cpp2v'))
 import vf
 import tables
+from checks import offset_common as oc
 
 PID = 'C12'
 META = dict(
     text='Theorems for every operation history of the Clipper64 state machine (lazy stable sort cache, CleanUp, Clear, '
          'AddReuseableData) and the RectClip64 per-path loop, a regenerated member-by-member coverage table for '
          'ClipperBase/ClipperD/ClipperOffset/RectClip64, plus exhaustive bounded histories compared bit for bit with '
-         'fresh objects; offset order independence by exhaustive orders of far-apart paths/groups (validation).',
+         'fresh objects; ClipperOffset: order independence of the per-path plan (theorem on OffsetPlan.v, tied by the '
+         'observer correspondence) and exhaustive orders of far-apart paths/groups against each alone (validation).',
     note='The sweep is a parameter of the state-machine theorem (not modelled); the member table is tied to the source '
-         'by regeneration from clang\'s AST on every run; offset history dependence inside one call is decided by '
-         'validation here (OffsetPlan.v belongs to C06/C07). Empty paths in open-ended offset groups are excluded '
-         '(library UB, C10).',
+         'by regeneration from clang\'s AST on every run; the offset plan theorems say which member values a path is '
+         'offset with, that equal values give equal geometry is validated (far apart vs alone), not proved. Empty paths in '
+         'open-ended offset groups are excluded (library UB, C10).',
     technique='Coq refinement proof + regenerated field/writer table (clang JSON AST) + extracted model vs private '
               'object state + exhaustive history enumeration vs fresh objects (plain and ASan builds)',
     category='proof')
@@ -128,24 +133,39 @@ def run_sharded(exe, lines, prefix=None, jobs=None, timeout=900, env=None):
     shards = [lines[i:i + chunk] for i in range(0, n, chunk)]
     outs, crashes = [None] * len(shards), []
 
-    def work(i):
-        inp = ([prefix] if prefix else []) + shards[i]
+    def run_one(inp):
         if env and 'ASAN_OPTIONS' in env:          # sanitizer builds reserve huge virtual ranges: limit RSS instead
-            return i, vf.run_lines(exe, inp, timeout=timeout, env=env)
-        return i, vf.run_lines('/bin/bash', inp, args=['-c', 'ulimit -v %d; exec "$0"' % MEM_KB, exe], timeout=timeout, env=env)
-    with cf.ThreadPoolExecutor(max_workers=jobs) as ex:
-        for i, p in ex.map(work, range(len(shards))):
+            return vf.run_lines(exe, inp, timeout=timeout, env=env)
+        return vf.run_lines('/bin/bash', inp, args=['-c', 'ulimit -v %d; exec "$0"' % MEM_KB, exe], timeout=timeout, env=env)
+
+    def work(i):
+        """run a shard; when the process dies the line it was working on answers CRASH and the rest of the shard is
+        run again in a new process (a crash must not be attributed to the lines behind it)"""
+        todo, res, cr = shards[i], [], []
+        while todo:
+            p = run_one(([prefix] if prefix else []) + todo)
             o = p.stdout.split('\n')
             if o and o[-1] == '':
                 o.pop()
             if prefix:
                 o = o[1:]
-            want = len(shards[i])
-            if p.returncode != 0 or len(o) != want:
-                bad = shards[i][len(o)] if len(o) < want else '<after last line>'
-                crashes.append((bad, p.returncode, (p.stderr or '')[-3000:]))
-                o = o + ['CRASH'] * (want - len(o))
-            outs[i] = o[:want]
+            o = o[:len(todo)]
+            res += o
+            if len(o) == len(todo):
+                if p.returncode != 0:        # died after the last answer (e.g. leak report at exit)
+                    cr.append(('<after last line>', p.returncode, (p.stderr or '')[-3000:]))
+                break
+            cr.append((todo[len(o)], p.returncode, (p.stderr or '')[-3000:]))
+            res.append('CRASH')
+            todo = todo[len(o) + 1:]
+            if len(cr) > 20:                 # something is thoroughly wrong: do not loop for ever
+                res += ['CRASH'] * len(todo)
+                break
+        return i, res, cr
+    with cf.ThreadPoolExecutor(max_workers=jobs) as ex:
+        for i, o, cr in ex.map(work, range(len(shards))):
+            outs[i] = o
+            crashes += cr
     return [l for o in outs for l in o], crashes
 
 
@@ -261,51 +281,108 @@ def classify_off(case, res):
             continue
         rot_only = ms_canon(G) == ms_canon(allA)
         lens = [len(strip_dups(p, et in (0, 1))) for p in paths]
-        leak = et == 1 and any(lens[i] == 2 and any(l >= 3 for l in lens[i + 1:]) for i in range(len(lens)))
-        if cb and not rot_only and not leak and any(l == 1 for l in lens) and jt == 2:
-            found.append(('offset.delta-callback.steps-leak-single-point',
-                          'with a DeltaCallback64 installed DoRound stores steps_per_rad_/step_sin_/step_cos_ per vertex; a single-point '
-                          'path (Round join) after another path of the group is drawn with that path\'s last step count instead of the one it '
-                          'gets alone (group %d, path lengths %s, callback mode %d)' % (gi, lens, cb)))
-        elif cb == 2 and not rot_only and not leak and any(l == 1 for l in lens):
-            found.append(('offset.delta-callback.stale-normals-single-point',
-                          'the DeltaCallback64 of a single-point path is shown the normals of the previous path (group %d, path lengths %s)' % (gi, lens)))
-        elif leak and not rot_only:
-            found.append(('offset.endtype-leak.joined-2pt-then-longer',
-                          'EndType::Joined group: a two-point path leaves end_type_ = Square/Round and the longer paths after it '
-                          'are offset as open paths with caps (group %d, path lengths %s, join %s)' % (gi, lens, JT[jt])))
-        elif rot_only:
+        if rot_only:
             found.append(('offset.far-apart.start-vertex-differs',
                           'paths of one group far apart: same rings as alone but with another start vertex (group %d)' % gi))
-        else:
-            found.append(('offset.path-order-dependence',
-                          'a path of a group is not offset as it is alone (group %d: %s/%s, path lengths %s)' % (gi, JT[jt], ET[et], lens)))
+            continue
+        # which paths are not offset as alone: a ring of the alone-result that the group result does not contain
+        Gset = set(tuple(r) for r in G)
+        keys_here = []
+        for pi, a in enumerate(A):
+            if all(tuple(r) in Gset for r in a):
+                continue
+            if lens[pi] == 1 and cb:
+                # same radius (bounding box) but another vertex count: the arc step constants; another radius: the callback was
+                # shown other normals (mode 2 returns |delta| + 0.5 * path_normals.size())
+                pt = strip_dups(paths[pi], et in (0, 1))[0]
+                near = [r for r in G if r and abs(r[0][0] - pt[0]) < 1000 and abs(r[0][1] - pt[1]) < 1000]
+                same_box = bool(near) and bool(a) and ring_box(near[0]) == ring_box(a[0])
+                if jt == 2 and same_box:
+                    keys_here.append(('offset.delta-callback.steps-leak-single-point',
+                                      'with a DeltaCallback64 installed DoRound stores steps_per_rad_/step_sin_/step_cos_ per vertex; a single-point '
+                                      'path (Round join) after another path of the group is drawn with that path\'s last step count instead of the one it '
+                                      'gets alone (group %d, path lengths %s, callback mode %d)' % (gi, lens, cb)))
+                elif cb == 2:
+                    keys_here.append(('offset.delta-callback.stale-normals-single-point',
+                                      'the DeltaCallback64 of a single-point path is shown the normals of the previous path (group %d, path lengths %s)' % (gi, lens)))
+                else:
+                    keys_here.append(('offset.path-order-dependence',
+                                      'a single-point path of a group is not offset as it is alone (group %d: %s/%s, path lengths %s, callback mode %d)'
+                                      % (gi, JT[jt], ET[et], lens, cb)))
+            elif et == 1 and lens[pi] >= 3 and any(l == 2 for l in lens[:pi]):
+                keys_here.append(('offset.endtype-leak.joined-2pt-then-longer',
+                                  'EndType::Joined group: a two-point path leaves end_type_ = Square/Round and the longer paths after it '
+                                  'are offset as open paths with caps (group %d, path lengths %s, join %s)' % (gi, lens, JT[jt])))
+            else:
+                keys_here.append(('offset.path-order-dependence',
+                                  'path %d of a group is not offset as it is alone (group %d: %s/%s, path lengths %s)' % (pi, gi, JT[jt], ET[et], lens)))
+        if not keys_here:
+            keys_here.append(('offset.path-order-dependence',
+                              'the result of a group is not the union of its paths offset alone (group %d: %s/%s, path lengths %s)' % (gi, JT[jt], ET[et], lens)))
+        for k in keys_here:
+            if k[0] not in [f[0] for f in found]:
+                found.append(k)
     # group level
     allG = [p for (G, A) in groups for p in G]
     if ms(W) != ms(allG):
         rot_only = ms_canon(W) == ms_canon(allG)
         delta = case['delta']
         empties = [i for i, (jt, et, paths) in enumerate(gs) if et == 0 and not any(len(p) for p in paths)]
-        orient = []
-        for (jt, et, paths) in gs:
-            if et == 0:
-                a = [area2(p) for p in paths if len(p) >= 3]
-                if a:
-                    orient.append(a[lowest_idx([p for p in paths if len(p) >= 3])] > 0)
+        orient = group_orientations(gs)
         if rot_only:
             found.append(('offset.far-apart.start-vertex-differs', 'groups far apart: same rings as alone but with another start vertex'))
-        elif empties and delta < 0 and empties[0] < len(gs) - 1:
+        elif empties and first_polygon(gs) == empties[0] and -1 in orient and not mixed_orientation(orient) and not W:
+            found.append(('offset.orientation-lost.empty-polygon-group-first',
+                          'the first Polygon group has no vertex: CheckReverseOrientation takes is_reversed = false from it and the '
+                          'reversed (clockwise) groups of the call vanish in the clean-up union (empty result)'))
+        elif empties and delta < 0 and empties[0] < len(gs) - 1 and not mixed_orientation(orient):
             found.append(('offset.delta-abs-leak.empty-polygon-group',
                           'a Polygon group without a lowest path (only empty paths) executes delta_ = std::abs(delta_): every '
                           'later group is inflated instead of shrunk (delta %g, empty group at index %d of %d)' % (delta, empties[0], len(gs))))
-        elif len(set(orient)) > 1:
+        elif mixed_orientation(orient):
             found.append(('offset.group-orientation.first-polygon-group-decides',
-                          'Polygon groups of opposite orientation in one ClipperOffset: CheckReverseOrientation takes the fill rule '
-                          'and output orientation from the first Polygon group, later groups of the other orientation are lost or wrong'))
+                          'groups of opposite offset orientation in one ClipperOffset (Polygon groups whose lowest paths have opposite '
+                          'orientation, or open-path/point groups together with a clockwise Polygon group): CheckReverseOrientation '
+                          'takes fill rule and output orientation from the first oriented Polygon group, the groups of the other '
+                          'orientation are lost (group orientations %s)' % orient))
         else:
             found.append(('offset.group-order-dependence', 'a group is not offset as it is alone (delta %g, groups %s)'
                           % (delta, [(JT[jt], ET[et], [len(p) for p in paths]) for (jt, et, paths) in gs])))
     return found
+
+
+def group_orientations(gs):
+    """offset orientation of every group of a case: +1 / -1 = orientation of the raw offset curves the group produces
+    (Polygon group: sign of the area of the path holding the lowest vertex, zero area counts as +1 as in the Group
+    constructor; open-path groups: always +1), None for a Polygon group without any vertex (produces nothing)."""
+    res = []
+    for (jt, et, paths) in gs:
+        if et != 0:
+            res.append(1 if any(len(p) for p in paths) else None)
+            continue
+        ne = [strip_dups(p, True) for p in paths]
+        ne = [p for p in ne if p]
+        if not ne:
+            res.append(None)
+            continue
+        low = ne[lowest_idx(ne)]
+        res.append(-1 if len(low) >= 3 and area2(low) < 0 else 1)
+    return res
+
+
+def ring_box(r):
+    return (min(v[0] for v in r), min(v[1] for v in r), max(v[0] for v in r), max(v[1] for v in r))
+
+
+def mixed_orientation(orient):
+    return len(set(o for o in orient if o is not None)) > 1
+
+
+def first_polygon(gs):
+    for i, (jt, et, paths) in enumerate(gs):
+        if et == 0:
+            return i
+    return None
 
 
 def area2(p):
@@ -384,12 +461,20 @@ def gen_off_cases(ctx, thorough):
                 for perm in itertools.permutations(pool, k):
                     cases.append(dict(tag='paths-cb%d' % cbm, ml=2.0, at=0.0, pc=0, rs=0, delta=10.0, layout='diag', cb=cbm,
                                       groups=[(jt, et, [place(i, 'diag') for i in perm])]))
-    # (3) opposite orientations in different Polygon groups (CheckReverseOrientation)
+    # (3) opposite orientations in different groups (CheckReverseOrientation): two Polygon groups; a clockwise Polygon
+    # group and an open-path group; and consistently clockwise groups with a vertex-less Polygon group in front
     for delta in (10.0, -10.0):
         for order in ((0, 1), (1, 0)):
             gs = [(3, 0, [place(0, 'diag')]), (3, 0, [place(1, 'diag', rev=True)])]
             cases.append(dict(tag='groups-orient', ml=2.0, at=0.0, pc=0, rs=0, delta=delta, layout='diag',
                               groups=[gs[i] for i in order]))
+            gs = [(3, 0, [place(1, 'diag', rev=True)]), (0, 2, [place(0, 'diag')])]
+            cases.append(dict(tag='groups-orient', ml=2.0, at=0.0, pc=0, rs=0, delta=abs(delta), layout='diag',
+                              groups=[gs[i] for i in order]))
+            gs = [(1, 0, [[]]), (3, 0, [place(1, 'diag', rev=True)]), (2, 0, [place(2, 'diag', rev=True)])]
+            for o3 in ((0, 1, 2), (1, 0, 2), (1, 2, 0)):
+                cases.append(dict(tag='groups-orient-empty', ml=2.0, at=0.0, pc=0, rs=0, delta=delta, layout='diag',
+                                  groups=[gs[i] for i in (o3 if order == (0, 1) else o3[::-1])]))
     return cases
 
 
@@ -479,11 +564,49 @@ def minimise_history(exe, defs, line):
     return ' '.join(head + ops), (outs[1] if len(outs) > 1 and outs[1] else 'CRASH')
 
 
+def fresh_equivalents(line):
+    """for every Execute of a history: the history that brings a FRESH object to the same abstract state (options, adds
+    since the last Clear of that clipper) and makes that call"""
+    head, ops = line.split()[:2], line.split()[2:]
+    cur, st, res = 0, {}, []
+    for o in ops:
+        a = st.setdefault(cur, dict(adds=[], pc='P1', rs='V0'))
+        if o[0] == '@':
+            cur = int(o[1:]) & 3
+        elif o[0] in 'SOCR':
+            a['adds'].append(o)
+        elif o[0] == 'P':
+            a['pc'] = o
+        elif o[0] == 'V':
+            a['rs'] = o
+        elif o == 'L':
+            a['adds'] = []
+        elif o[0] in 'XT':
+            res.append(' '.join(head + [a['pc'], a['rs']] + a['adds'] + [o]))
+    return res
+
+
+def crash_on_fresh_object(exe, defs, line, env=None):
+    """a crashed history: does one of its Executes crash on a fresh object given the same paths and options as well?
+    Then used and fresh object behave alike -- a robustness defect (C10), not a history dependence.  Returns the
+    fresh-equivalent history that crashes, or None."""
+    for fl in fresh_equivalents(line):
+        if env and 'ASAN_OPTIONS' in env:
+            p = vf.run_lines(exe, [defs, fl], timeout=120, env=env)
+        else:
+            p = vf.run_lines('/bin/bash', [defs, fl], args=['-c', 'ulimit -v %d; exec "$0"' % MEM_KB, exe], timeout=120)
+        outs = p.stdout.split('\n')
+        if p.returncode != 0 or len(outs) < 2 or not outs[1]:
+            return fl
+    return None
+
+
 def run_histories(ctx, exe, defs, lines, label, env=None):
     t0 = time.time()
     outs, crashes = run_sharded(exe, lines, prefix=defs, env=env)
     nbad = 0
     nontriv = 0
+    nfresh = 0
     for line, out in zip(lines, outs):
         if out.startswith('OK'):
             t = out.split()
@@ -493,6 +616,18 @@ def run_histories(ctx, exe, defs, lines, label, env=None):
             if int(t[2]) > 0 and hist_before > 0:
                 nontriv += 1
             continue
+        if out == 'CRASH' and nfresh + nbad < 40:
+            fl = crash_on_fresh_object(exe, defs, line, env)
+            if fl is not None:
+                # outside C12: the fresh object given the same paths and options crashes as well
+                nfresh += 1
+                ctx.count('crashes_also_on_fresh_object', 1)
+                c = [c for c in crashes if c[0] == line]
+                ctx.sample(dict(kind='H', line=line, fresh_equivalent=fl, rc=c[0][1] if c else None, stderr=(c[0][2][-300:] if c else '')),
+                           limit=3, key='crash_also_on_fresh_object_samples')
+                if nfresh == 1:
+                    ctx.notes.append('outside C12 (robustness, C10): `%s` crashes on a fresh object as well (history %s)' % (fl, line))
+                continue
         nbad += 1
         if nbad <= 3:
             extra = ''
@@ -503,11 +638,14 @@ def run_histories(ctx, exe, defs, lines, label, env=None):
                 mline, mout = minimise_history(exe, defs, line) if env is None else (line, out)
             except Exception:
                 mline, mout = line, out
-            history_violation(ctx, 'H', mline, mout if mout != 'CRASH' or out == 'CRASH' else out, defs, extra)
+            if mout.startswith('OK'):          # not reproducible when run alone: report the original line
+                mline, mout = line, out
+            history_violation(ctx, 'H', mline, mout, defs, extra)
     ctx.count('evaluations', len(lines))
     ctx.count('histories', len(lines))
     ctx.cov['distinct_nontrivial'] = ctx.cov.get('distinct_nontrivial', 0) + nontriv
-    ctx.log('%s: %d histories, %d failing, %.1fs' % (label, len(lines), nbad, time.time() - t0))
+    ctx.log('%s: %d histories, %d failing%s, %.1fs' % (label, len(lines), nbad,
+            (', %d crash on a fresh object as well (not history dependent)' % nfresh) if nfresh else '', time.time() - t0))
     return outs, nbad
 
 
@@ -667,6 +805,22 @@ def run(ctx):
     ctx.log('offset: %d cases, failing by key %s, %.1fs' % (len(lines), ctx.cov['offset_failing_by_key'], time.time() - t0))
     ctx.sample(dict(kind='OFF', line=lines[len(lines) // 2][:300]))
 
+    # ---- 6b. the OffsetPlan model (C12_plan_* theorems) vs the member values the library uses for every path, and
+    # check_reverse vs CheckReverseOrientation (observer correspondence shared with C06/C07)
+    try:
+        from checks.C07 import enum_plan_cases, gen_mixture
+        To = oc.Tools(ctx)
+        r3 = ctx.rng.fork(3)
+        pcs = enum_plan_cases(full=thorough) + [gen_mixture(r3, allow_polygon=True) for _ in range(6000 if thorough else 600)]
+        pcs += [dict(ml=c['ml'], at=c['at'], pc=c['pc'], rev=c['rs'], delta=c['delta'],
+                     groups=[dict(jt=jt, et=et, paths=paths) for (jt, et, paths) in c['groups']])
+                for c in cases if c['tag'].startswith('groups') or c['tag'] == 'paths-rev']
+        nbreak, _ = oc.plan_tie(ctx, To, pcs, 'C12 plan', 'c12-plan')
+        ctx.log('plan tie: %d cases, %d breaks' % (len(pcs), nbreak))
+    except vf.BuildFailure as e:
+        ctx.violation('tie-break:cx_offset-build', 'the offset harness no longer builds against the tree (a modelled member or function changed): %s'
+                      % str(e)[-600:], replay=dict(kind='build', error=str(e)[-3000:]), nofail=True)
+
     # ---- 7. RectClip64 / RectClipLines64 object reuse
     rcl = gen_rc_lines(thorough)
     outs, crashes = run_sharded(exe, rcl)
@@ -747,6 +901,10 @@ def decide_case(ctx, exe, case, origin=''):
         for key, what in classify_off(c, res):
             ctx.violation(key, what + (' [%s]' % origin if origin else ''), replay=case)
         return out
+    if kind == 'c12-plan':
+        from checks.C07 import norm_case
+        oc.plan_tie(ctx, oc.Tools(ctx), [norm_case(case['case'])], 'C12 plan', 'c12-plan')
+        return 'plan tie replayed'
     if kind == 'RC':
         p = vf.run_lines(exe, [case['line']], timeout=120)
         out = p.stdout.split('\n')[0] if p.stdout else 'CRASH'
